@@ -202,7 +202,9 @@ func (s *session) sameRefBatch(tb trueBlob, bad *offer, order, transport, reader
 		s.stored[tb.Ref] = f.data
 		delete(s.rejNever, tb.Ref)
 	default:
-		if wasStored && !s.broken[tb.Ref] {
+		if s.evicts && f.err == nil {
+			r.Note("observations", "cache-evicted-after-accept")
+		} else if wasStored && !s.broken[tb.Ref] {
 			s.broken[tb.Ref] = true
 			s.viol("trace-after-reject/overwrite/"+s.site(), "after a request with two parts named %s (%s), the blob that was stored before is gone (fetch err=%v)", tb.Ref, order, f.err)
 		} else if nListed > 0 && !s.broken[tb.Ref] {
